@@ -485,6 +485,14 @@ pub fn on_rt<T>(f: impl std::future::Future<Output = T>) -> T {
     RT.with(|rt| rt.block_on(f))
 }
 
+/// the reply channel of a Report request whose requester has already gone away (the harshest
+/// form of the request: the daemon hands the transaction a sender nobody listens to)
+fn gone_requester() -> tokio::sync::oneshot::Sender<cfdp_core::daemon::Report> {
+    let (tx, rx) = tokio::sync::oneshot::channel();
+    drop(rx);
+    tx
+}
+
 fn clear_dir(p: &std::path::Path) {
     if let Ok(rd) = std::fs::read_dir(p) {
         for e in rd.flatten() {
@@ -1208,7 +1216,7 @@ impl World {
                             UserOp::Cancel => t.cancel(),
                             UserOp::Suspend => t.suspend(),
                             UserOp::Resume => t.resume(),
-                            UserOp::Report => t.send_report(None),
+                            UserOp::Report => t.send_report(Some(gone_requester())),
                             UserOp::PromptNak => {
                                 t.verif_prepare_prompt(NakOrKeepAlive::Nak);
                                 Ok(())
@@ -1225,7 +1233,7 @@ impl World {
                             UserOp::Cancel => t.cancel(),
                             UserOp::Suspend => t.suspend(),
                             UserOp::Resume => t.resume(),
-                            UserOp::Report => t.send_report(None),
+                            UserOp::Report => t.send_report(Some(gone_requester())),
                             _ => Ok(()), // prompt is a no-op for a receive transaction (lib.rs)
                         })
                     }
